@@ -288,6 +288,10 @@ def run(ctx):
     prog = db.program('qmail-send')
     fn = prog.fn('rewrite', 'qmail-send.c')
     r1 = rep.rule('C10.1-precedence-and-outcomes', 'R-TABLE', 'rewrite(): default host first, percent hack (a loop) before locals before virtualdomains; outcome table over abstract lookup results; an empty tag ends the search')
+    # rewrite() finds the @ and the % with byte_rchr()
+    from rules import libtab as _lt
+    for inst_, v_ in sorted(_lt.byte_rchr_sites(db, rep, prog).items()):
+        r1.check(v_[0], inst_, v_[1], v_[2], v_[3])
     H = RewriteHooks(False)
     eng = Engine(db, prog, H)
     eng.run(fn, {})
@@ -328,6 +332,10 @@ def run(ctx):
     rep.exhaustive_rules.append('C10.2-candidate-positions')
 
     r3 = rep.rule('C10.3-case-folding', 'R-SIBLING', 'constmap: the hash folds A-Z onto a-z (evaluated for every letter), lookups and table construction use the same hash, matches use case_diffb')
+    # the comparison constmap() ends in
+    from rules import libtab as _lt
+    for inst_, v_ in sorted(_lt.case_diffb_sites(db, rep, prog).items()):
+        r3.check(v_[0], inst_, v_[1], v_[2], v_[3])
     hf = db.fn('constmap.c', 'hash')
     cm = db.fn('constmap.c', 'constmap')
     ci = db.fn('constmap.c', 'constmap_init')
